@@ -11,13 +11,18 @@ OPBYTES = {'DUP': [0x76], 'HASH160': [0xa9], 'EQUALVERIFY': [0x88], 'CHECKSIG': 
            'HIGH': list(range(0xba, 0xff)), 'INVALID': [0xff], 'ADD': [0x93, 0x75, 0x63, 0x68, 0xa8, 0xaa, 0xad, 0xaf, 0x7c], 'NEG1': [0x4f]}
 
 
+POOL = {}
+
+
 def item_bytes(it, rng):
     """-> (bytes, payload or None)"""
     if it['k'] == 'op':
         return bytes([rng.choice(OPBYTES[it['name']])]), None
     if it['k'] == 'push':
         n = it['len']
-        data = rng.randbytes(n)
+        # payloads come from a pool of two per length, so that different scripts embed the SAME hash / key / program:
+        # an evaluator that remembers anything from one script to the next (a cache) is exposed by the neighbours
+        data = POOL.setdefault((n, rng.randrange(2)), rng.randbytes(n)) if n <= 80 else rng.randbytes(n)
         f = it['form']
         head = bytes([n]) if f == 'd' else b'\x4c' + bytes([n]) if f == 'p1' else b'\x4d' + struct.pack('<H', n) if f == 'p2' else b'\x4e' + struct.pack('<I', n)
         return head + data, data
@@ -161,6 +166,16 @@ def random_scripts(rng, n, maxlen=200):
             for _ in range(rng.randrange(1, 3)):
                 t[rng.randrange(len(t))] ^= 1 << rng.randrange(8)
             out.append(bytes(t))
+    # the same hash under different templates, back to back in both orders (nothing may be remembered between scripts)
+    for _ in range(6):
+        h = rng.randbytes(20)
+        k = b'\x02' + rng.randbytes(32)
+        kh = btc.hash160(k)
+        out += [btc.p2pkh(h), btc.p2sh(h), btc.p2pkh(h), b'\x00\x14' + h, btc.p2sh(h), btc.p2pk(k), btc.p2sh(kh), btc.p2pkh(kh), btc.p2pk(k),
+                b'\xa9' + btc.push(h, 1) + b'\x87', b'\x76\xa9' + btc.push(h, 1) + b'\x88\xac']
+    # scripts beyond Bitcoin's 10 000-byte script size limit are still just scripts for a parser
+    out += [b'\x51' * 10001, b'\x6a' + btc.push(rng.randbytes(10100)), b'\x51' + btc.push(rng.randbytes(10050)) + b'\x51\xae',
+            b'\x75' * 10000, b'\x75' * 20000]
     # many pushes (u8 counters), huge PUSHDATA4 lengths, long scripts
     out += [b'\x51' + b'\x01\x00' * 256 + b'\x60\xae', b'\x51' + b'\x01\x00' * 300 + b'\x60\xae', b'\x01\x00' * 10001,
             b'\x4e\xff\xff\xff\xff' + b'x' * 10, b'\x6a\x4e\xff\xff\xff\x7f', b'\x6a' + rng.randbytes(100000), rng.randbytes(100000),
